@@ -12,7 +12,7 @@ GEN = os.path.join(SPEC, "Gen_Stream.tla")
 GENC = os.path.join(SPEC, "Gen_Stream.cfg")
 TD = os.path.join(SPEC, "Trace_Decode.tla")
 TDC = os.path.join(SPEC, "Trace_Decode.cfg")
-APIS = ["byte-le", "byte-be", "sample", "iter", "channel", "stream", "verify", "frameiter", "seektable"]
+APIS = ["byte-le", "byte-be", "sample", "iter", "channel", "stream", "verify", "frameiter", "seektable", "path"]
 # C04 only: seeking readers over untrusted bytes (C03 judges data, and seeks on valid files are C06's)
 SEEK_APIS = ["seek-sample", "seek-byte", "seek-channel"]
 
@@ -74,7 +74,7 @@ def decode_items(wd, items, tag, profile, apis, do_struct=False, log_data=True, 
         ids = sorted(it["id"] for it in part)
         while True:
             json.dump(job, open(jp, "w"))
-            p = subprocess.run([exe, "decode", jp], capture_output=True, text=True, timeout=3000)
+            p = subprocess.run([exe, "decode", jp], capture_output=True, text=True, timeout=3000, env=dict(os.environ, VERIF_SCRATCH=wd))
             if p.returncode == 0:
                 break
             m = re.search(r"WATCHDOG timeout id=(\d+)", p.stderr)
